@@ -917,6 +917,15 @@ class _Ctx:
         return out
 
     def st_Assign(self, s, st):
+        from . import terms as _T
+        n0 = len(_T.CANCEL_LOG)
+        outs = self._st_Assign(s, st)
+        if len(_T.CANCEL_LOG) > n0:
+            for o in outs:
+                self.emit(o, 'cancel', s, mons=tuple(_T.CANCEL_LOG[n0:]))
+        return outs
+
+    def _st_Assign(self, s, st):
         fi = self._full_inline_target(s.value, st)
         if fi is not None:
             r = self.inline_statement_call(s.value, st, *fi)
@@ -973,6 +982,15 @@ class _Ctx:
         return self._after_calls(st)
 
     def st_AugAssign(self, s, st):
+        from . import terms as _T
+        n0 = len(_T.CANCEL_LOG)
+        outs = self._st_AugAssign(s, st)
+        if len(_T.CANCEL_LOG) > n0:
+            for o in outs:
+                self.emit(o, 'cancel', s, mons=tuple(_T.CANCEL_LOG[n0:]))
+        return outs
+
+    def _st_AugAssign(self, s, st):
         cur = self.ev(_load(s.target), st)
         v = self.ev(s.value, st, stmt=s)
         is_list = isinstance(cur, Fresh) and cur.kind in ('list', 'call:list', 'listcomp', 'copy')
